@@ -284,7 +284,7 @@ def install_walker_env(ctx, eng, nsources=1):
         p = pexpr(eng, st, args[0])
         return [Outcome(ok(P(("canon", p))), events=[Event("canonicalize", [p], "ok")]),
                 *([] if st.ghost.get("nsources", 1) > 1 else [Outcome(err("std::io::Error"), events=[Event("canonicalize", [p], "err")])])]
-    S(r"^(std::fs::)?canonicalize::<", s_canon)
+    S(r"^(std::fs::)?canonicalize::<|^(std::path::)?Path::canonicalize$", s_canon)
 
     def s_lstat(eng, st, callee, args, dty):
         p = pexpr(eng, st, args[0])
